@@ -24,6 +24,9 @@ pub struct StepPt {
     /// end-of-interval special cases (remainder shorter than the minimum, clipped steps) are reached
     #[serde(default)]
     pub dtmin_frac: Option<f64>,
+    /// the builder had every numeric setter called once before with a looser value (the later call must win)
+    #[serde(default)]
+    pub reconfigured: bool,
 }
 pub fn rhs_of(name: &str) -> (Rc<dyn Fn(f64, &[f64]) -> Vec<f64>>, Vec<f64>) {
     if let Some(d) = name.strip_prefix("generic") {
@@ -75,7 +78,7 @@ pub fn run_and_judge(o: &mut Outcome, p: &StepPt, budget: u64) -> Option<refstep
             }
             Ok(v)
         });
-        let oc = solve::<C64>(p.solver, if p.dynamic { DimMode::Dynamic } else { DimMode::Static }, &cfg, &y0c, rhs, &lim);
+        let oc = if p.reconfigured { solve_reconfigured::<C64>(p.solver, DimMode::Static, &cfg, &y0c, rhs, &lim) } else { solve::<C64>(p.solver, if p.dynamic { DimMode::Dynamic } else { DimMode::Static }, &cfg, &y0c, rhs, &lim) };
         let out = RunOut { build: oc.build, ctor: oc.ctor, solve: oc.solve, items: oc.items.iter().map(|(t, z)| (*t, flatten(z))).collect(), end: oc.end, after: oc.after, calls: oc.calls, panic: oc.panic };
         (Rc::new(move |t, y| flatten(&cf(t, &unflatten(y)))), flatten(&y0c), out)
     } else {
@@ -88,7 +91,7 @@ pub fn run_and_judge(o: &mut Outcome, p: &StepPt, budget: u64) -> Option<refstep
             }
             Ok(v)
         });
-        let out = solve::<f64>(p.solver, if p.dynamic { DimMode::Dynamic } else { DimMode::Static }, &cfg, &y0, rhs, &lim);
+        let out = if p.reconfigured { solve_reconfigured::<f64>(p.solver, DimMode::Static, &cfg, &y0, rhs, &lim) } else { solve::<f64>(p.solver, if p.dynamic { DimMode::Dynamic } else { DimMode::Static }, &cfg, &y0, rhs, &lim) };
         (f, y0, out)
     };
     let subj = subject(p.solver);
@@ -142,10 +145,10 @@ impl Check for Steps {
         "step-conformance"
     }
     fn rule(&self) -> String {
-        "7 solvers x {3 generic non-linear non-autonomous right-hand sides (dimension 1,2,3), 2 catalogue systems, 2 complex 2-component systems (one with components a quarter turn apart) solved in Complex<f64> and judged as its real twin} x tolerance x maximum step x interval length (one shorter than a start-up, one long), static and dynamic dimension; every consecutive pair of every path is one judged transition of the reference stepper (nondeterministic for Adams: hypothesis set over the hidden derivative history); signature = run-length-compressed class sequence (R embedded RK, S RK4 start-up, A Adams, B BDF, a ambiguous, E Euler)".into()
+        "7 solvers x {3 generic non-linear non-autonomous right-hand sides (dimension 1,2,3), 2 catalogue systems, 2 complex 2-component systems (one with components a quarter turn apart) solved in Complex<f64> and judged as its real twin} x tolerance x maximum step x interval length (one shorter than a start-up, one long), static and dynamic dimension, minimum step up to the maximum step (fixed-step mode), builders configured twice (the later value of every setter must be the one in force); every consecutive pair of every path is one judged transition of the reference stepper (nondeterministic for Adams: hypothesis set over the hidden derivative history); signature = run-length-compressed class sequence (R embedded RK, S RK4 start-up, A Adams, B BDF, a ambiguous, E Euler)".into()
     }
     fn axes(&self, t: Tier) -> Value {
-        json!({"rhs": RHS, "tol": t.pick(vec![1e-3, 1e-6], vec![1e-3, 1e-5, 1e-7, 1e-9]), "dtmax": [0.2, 0.05], "len": t.pick(vec![0.33, 2.7], vec![0.33, 2.7, 9.1]), "t0": t.pick(vec![0.2], vec![0.2, -3.1, 40.0]), "dtmin": "1e-9; and dtmax x {0.5, 0.25} with a sweep of interval lengths across one maximum step"})
+        json!({"rhs": RHS, "tol": t.pick(vec![1e-3, 1e-6], vec![1e-3, 1e-5, 1e-7, 1e-9]), "dtmax": [0.2, 0.05], "len": t.pick(vec![0.33, 2.7], vec![0.33, 2.7, 9.1]), "t0": t.pick(vec![0.2], vec![0.2, -3.1, 40.0]), "dtmin": "1e-9; and dtmax x {1, 0.5, 0.25} with a sweep of interval lengths across one maximum step"})
     }
     fn points(&self, t: Tier) -> Vec<StepPt> {
         let mut v = vec![];
@@ -165,10 +168,18 @@ impl Check for Steps {
                                     if t0.is_some() && (dynamic || !rhs.starts_with("generic")) {
                                         continue;
                                     }
-                                    v.push(StepPt { solver, rhs: rhs.to_string(), tol, dtmax, len, dynamic, t0, dtmin_frac: None });
+                                    v.push(StepPt { solver, rhs: rhs.to_string(), tol, dtmax, len, dynamic, t0, dtmin_frac: None, reconfigured: false });
                                 }
                             }
                         }
+                    }
+                }
+            }
+            // a builder that is configured twice: the second value of every setter is the one in force
+            if solver != Solver::Euler {
+                for rhs in ["generic2", "cgeneric2"] {
+                    for &tol in &[1e-4, 1e-7] {
+                        v.push(StepPt { solver, rhs: rhs.to_string(), tol, dtmax: 0.2, len: 2.7, dynamic: false, t0: None, dtmin_frac: None, reconfigured: true });
                     }
                 }
             }
@@ -177,11 +188,11 @@ impl Check for Steps {
             if solver != Solver::Euler {
                 for rhs in ["generic2", "cgeneric2"] {
                     for &tol in &[1e-2, 1e-4] {
-                        for &frac in &[0.5, 0.25] {
+                        for &frac in &[1.0, 0.5, 0.25] {
                             for j in 0..t.pick(8, 16) {
                                 let dtmax = 0.2;
                                 let len = dtmax * (5.0 + j as f64 / t.pick(8.0, 16.0) + 1e-3);
-                                v.push(StepPt { solver, rhs: rhs.to_string(), tol, dtmax, len, dynamic: false, t0: None, dtmin_frac: Some(frac) });
+                                v.push(StepPt { solver, rhs: rhs.to_string(), tol, dtmax, len, dynamic: false, t0: None, dtmin_frac: Some(frac), reconfigured: false });
                             }
                         }
                     }
